@@ -245,6 +245,165 @@ func randomEntries(rng *lib.Rand, n int) []entry {
 	return es
 }
 
+// ---- the lineage-merge family: a root, 2 or 3 lineages hanging off it, each a chain of 1..3 versions with
+// every placement of value / deletion / nothing, merged in every parent order; queried at the merge node and at
+// a child of it.  Enumerated completely (two lineages: 3 x 39 x 39 x 2 = 9126 members); the quick tier takes a
+// sample stratified so that members with a deletion that is re-created further down are over-represented.
+func lineagePatterns() [][]int { // 0 nothing, 1 value, 2 deletion
+	var out [][]int
+	for n := 1; n <= 3; n++ {
+		tot := 1
+		for i := 0; i < n; i++ {
+			tot *= 3
+		}
+		for c := 0; c < tot; c++ {
+			p := make([]int, n)
+			q := c
+			for i := range p {
+				p[i] = q % 3
+				q /= 3
+			}
+			out = append(out, p)
+		}
+	}
+	return out
+}
+
+func lineageCase(rootEnt int, pats [][]int, order []int, tail bool) dagCase {
+	parents := [][]int{{}}
+	var es []entry
+	put := func(v, e int) {
+		switch e {
+		case 1:
+			es = append(es, entry{V: v, ID: 100 + v})
+		case 2:
+			es = append(es, entry{V: v, Tomb: true})
+		}
+	}
+	put(1, rootEnt)
+	heads := make([]int, len(pats))
+	for b, p := range pats {
+		prev := 1
+		for _, e := range p {
+			parents = append(parents, []int{prev})
+			prev = len(parents)
+			put(prev, e)
+		}
+		heads[b] = prev
+	}
+	var mp []int
+	for _, o := range order {
+		mp = append(mp, heads[o])
+	}
+	parents = append(parents, mp)
+	v := len(parents)
+	if tail {
+		parents = append(parents, []int{v})
+		v = len(parents)
+	}
+	return dagCase{Kind: "lineage-merge", Parents: parents, Entries: es, V: v}
+}
+
+func hasRecreate(p []int) bool {
+	for i, e := range p {
+		if e == 2 {
+			for _, f := range p[i+1:] {
+				if f == 1 {
+					return true
+				}
+			}
+		}
+	}
+	return false
+}
+
+func addLineageFamily(run *lib.Run, rng *lib.Rand, all bool, sample int) {
+	pats := lineagePatterns()
+	type member struct {
+		root   int
+		a, b   int
+		swap   bool
+		weight int
+	}
+	var ms []member
+	for root := 0; root < 3; root++ {
+		for a := range pats {
+			for b := range pats {
+				w := 1
+				if hasRecreate(pats[a]) || hasRecreate(pats[b]) {
+					w = 6
+				}
+				ms = append(ms, member{root, a, b, false, w}, member{root, a, b, true, w})
+			}
+		}
+	}
+	emit := func(m member) {
+		order := []int{0, 1}
+		if m.swap {
+			order = []int{1, 0}
+		}
+		c := lineageCase(m.root, [][]int{pats[m.a], pats[m.b]}, order, rng.Chance(0.3))
+		shuffleEntries(rng, c.Entries)
+		// through the resolver itself, or through the full read path (real keys, VersionedKeyValue /
+		// GetBestKeyVersion) with relabelled version ids
+		if rng.Chance(0.5) {
+			addDag(run, c)
+		} else {
+			c.Kind = ""
+			addDag2(run, c, relabel(rng, c))
+		}
+	}
+	if all {
+		for _, m := range ms {
+			emit(m)
+		}
+	} else {
+		tot := 0
+		for _, m := range ms {
+			tot += m.weight
+		}
+		for i := 0; i < sample; i++ {
+			x := rng.Intn(tot)
+			for _, m := range ms {
+				if x < m.weight {
+					emit(m)
+					break
+				}
+				x -= m.weight
+			}
+		}
+	}
+	// three lineages, sampled
+	n3 := sample / 4
+	if all {
+		n3 = 3000
+	}
+	for i := 0; i < n3; i++ {
+		ps := [][]int{pats[rng.Intn(len(pats))], pats[rng.Intn(len(pats))], pats[rng.Intn(len(pats))]}
+		order := []int{0, 1, 2}
+		for j := 2; j > 0; j-- {
+			k := rng.Intn(j + 1)
+			order[j], order[k] = order[k], order[j]
+		}
+		c := lineageCase(rng.Intn(3), ps, order, rng.Chance(0.3))
+		shuffleEntries(rng, c.Entries)
+		if rng.Chance(0.5) {
+			addDag(run, c)
+		} else {
+			c.Kind = ""
+			addDag2(run, c, relabel(rng, c))
+		}
+	}
+	run.Extra["lineage_merge_family_complete"] = all
+}
+
+func shuffleEntries(rng *lib.Rand, es []entry) {
+	for i := len(es) - 1; i > 0; i-- {
+		j := rng.Intn(i + 1)
+		es[i], es[j] = es[j], es[i]
+	}
+}
+
 // ---- exhaustive enumeration: every ordered-parent DAG on nodes 1..n (1..3 parents each) ----
 
 func orderedSubsets(m, maxLen int) [][]int {
@@ -337,6 +496,10 @@ func min(a, b int) int {
 // ---- HTTP histories ----
 
 func runHistory(run *lib.Run, rng *lib.Rand, nops, nkeys int, replay []kvhist.Hop, unversioned bool) {
+	runHistoryB(run, rng, nops, nkeys, replay, unversioned, false)
+}
+
+func runHistoryB(run *lib.Run, rng *lib.Rand, nops, nkeys int, replay []kvhist.Hop, unversioned, bursts bool) {
 	var extra map[string]string
 	kind, ctor := "history", "CHist"
 	if unversioned {
@@ -350,6 +513,9 @@ func runHistory(run *lib.Run, rng *lib.Rand, nops, nkeys int, replay []kvhist.Ho
 	}
 	if replay != nil {
 		h.Replay(replay)
+	} else if bursts {
+		h.Bursts(3, nkeys, 24)
+		h.Sweep(nkeys)
 	} else {
 		h.Random(nops, nkeys, 12)
 		h.Sweep(nkeys)
@@ -452,6 +618,7 @@ func main() {
 		}
 		addDag(run, c)
 	}
+	addLineageFamily(run, rng, o.Thorough(), 500)
 	// exhaustive: every DAG with <= 3 nodes (quick) / <= 4 nodes (thorough: 60 DAGs x 81 placements
 	// x 4 versions) and, in the thorough tier, 150 random 5-node DAGs, each over all 3^n placements
 	// and all queried versions
@@ -494,6 +661,11 @@ func main() {
 	}
 	for i := 0; i < nHist; i++ {
 		runHistory(run, rng, 45, 3, nil, false)
+	}
+	// histories made of lineage-merge bursts (deletions re-created down a lineage, unresolved conflicts
+	// deleted or overwritten at the merge node, reads below the merge)
+	for i := 0; i < nHist/2+2; i++ {
+		runHistoryB(run, rng, 0, 2, nil, false, true)
 	}
 	// unversioned instances: every uuid of the repo reads and writes the same datum
 	for i := 0; i < nHist/4+1; i++ {
